@@ -28,7 +28,13 @@ fn main() {
     let args: Vec<String> = std::env::args().collect();
     match args.get(1).map(|s| s.as_str()) {
         Some("xdec") => cmd_xdec(&args),
-        Some("check") => cmd_check(&args),
+        Some("check") => {
+            let r = std::panic::catch_unwind(|| cmd_check(&args));
+            if r.is_err() {
+                eprintln!("MACHINERY: the harness itself panicked: {}", LAST_PANIC.lock().map(|g| g.clone()).unwrap_or_default());
+                std::process::exit(2);
+            }
+        }
         Some("replay") => {
             let text = std::fs::read_to_string(&args[2]).expect("read replay");
             let j = json::parse(&text).expect("json");
